@@ -111,7 +111,10 @@ def _check_pdf(ctx, model, Q, S, where):
         if under.any() and cond < 1e8:
             # the density underflowed: its logarithm is -inf, or - if computed directly - the MVN log-density itself
             lref = mvn.logpdf(Zs[under], S)
-            oku = np.isneginf(lp[under]) | (np.abs(lp[under] - lref) <= 1e-6 * np.abs(lref))
+            with np.errstate(all='ignore'):
+                logp = np.log(p[under])          # a subnormal density has a logarithm too (with few significant bits)
+            oku = np.isneginf(lp[under]) | (np.abs(lp[under] - lref) <= 1e-6 * np.abs(lref)) | \
+                (np.isfinite(logp) & (np.abs(lp[under] - logp) <= 1e-9 * np.abs(logp)))
             ctx.check(bool(oku.all()), 'logpdf.is-log', 'C13:logpdf-of-underflowing-density-wrong',
                       lambda: dict(where, got=lp[under][:3], reference_log_density=lref[:3]))
     else:
